@@ -19,18 +19,23 @@ class ConverterFailure(Exception):
     pass
 
 
-def make_converter(fail_unit=None, shift=0.0):
+FAIL_CLASSES = {"ConverterFailure": ConverterFailure, "KeyError": KeyError, "RuntimeError": RuntimeError,
+                "AttributeError": AttributeError}
+
+
+def make_converter(fail_unit=None, shift=0.0, fail_exc="ConverterFailure"):
     """Affine test converter with a known result: (values, from, to=None) -> (values', unit string)."""
+    exc = FAIL_CLASSES[fail_exc]
 
     def conv(values, from_unit, to_unit=None):
         if from_unit == fail_unit or from_unit not in FAMILIES:
-            raise ConverterFailure(from_unit)
+            raise exc(from_unit)
         base, f = FAMILIES[from_unit]
         if to_unit is None:
             to_unit, g = base, 1.0
         else:
             if to_unit not in FAMILIES or FAMILIES[to_unit][0] != base:
-                raise ConverterFailure(f"{from_unit}->{to_unit}")
+                raise exc(f"{from_unit}->{to_unit}")
             g = FAMILIES[to_unit][1]
         arr = np.asarray(values, dtype=float)
         return arr * f / g + shift, to_unit
@@ -83,7 +88,7 @@ class C06(Prop):
                 if k == "float":
                     vals = [rng.choice([1.5, -2.0, 0.0, 1e6, float("nan"), 3.25]) for _ in range(nrows)]
                 elif k == "int":
-                    vals = [rng.randint(-9, 9) for _ in range(nrows)]
+                    vals = [rng.choice([rng.randint(-9, 9), 1500000, 10**6 + 1, -123456]) for _ in range(nrows)]
                 elif k == "text":
                     vals = [rng.choice(["x", "y", ""]) for _ in range(nrows)]
                 elif k == "onoff":
@@ -111,6 +116,9 @@ class C06(Prop):
             cases.append({"cols": cols, "index": idx, "form": form, "targets": targets,
                           "fail_unit": rng.choice([None, None, None, "mm", "g"]), "pint": i % 8 == 7,
                           "default": rng.choice(["none", "none", "other", "only"]),
+                          # an offset makes results of whole-number inputs fractional; the converter's failure class varies
+                          "shift": rng.choice([0.0, 0.0, 0.15, 273.15]),
+                          "fail_exc": rng.choice(["ConverterFailure", "ConverterFailure", "KeyError", "RuntimeError", "AttributeError"]),
                           "extra_dict": rng.random() < 0.3})
         return cases
 
@@ -158,7 +166,7 @@ class C06(Prop):
         if case["pint"]:
             from pdtable.units.pint import pint_converter as conv
         else:
-            conv = make_converter(case["fail_unit"])
+            conv = make_converter(case["fail_unit"], case.get("shift", 0.0), case.get("fail_exc", "ConverterFailure"))
         obs = {"before": before}
         import pdtable.units
 
@@ -278,7 +286,8 @@ class C06(Prop):
                              g_opt(None if k[3] is None else g_pair(g_list([str(x) for x in k[3][0]]), g_str(k[3][1]))))
                       for k in obs["calls"]])
         if "error" in obs:
-            code, res = ERR.get(obs["error"], 9), "[]"
+            err = "ConverterFailure" if obs["error"] == case.get("fail_exc", "ConverterFailure") else obs["error"]
+            code, res = ERR.get(err, 9), "[]"
         else:
             r = obs["result"]
             code = 0
